@@ -20,7 +20,8 @@ ReadBack == {<<"bump", "peek">>, <<"bump", "reqbump">>, <<"gset", "rget">>, <<"s
 Hists(t) ==
   IF t = "quick" THEN
        { <<a, b>> : a \in All, b \in All }
-    \cup { <<a, p, q>> : a \in All, p \in P, q \in P }
+    \cup { <<d, p, q>> : d \in D, p \in P, q \in P }
+    \cup { <<p, q>> \o rb : p \in P, q \in P, rb \in ReadBack }
     \cup { <<p, d, q>> : p \in P, d \in D, q \in P }
     \cup { <<d, "page", p>> : d \in D, p \in P }
     \cup { <<d, e>> \o rb : d \in D, e \in D, rb \in ReadBack }
